@@ -163,7 +163,7 @@ func (r *Run) CheckUP4Image(prop, ctx, cause string, o UP4Opts) {
 	wantTermDL := map[termKey]*modelPDR{}
 	wantApps := map[appFilterKey]bool{}
 	appUser := map[appFilterKey]uint64{} // a live session that uses the filter (a tainted one when there is one)
-	wantPeers := map[uint32]bool{} // by peer address
+	wantPeers := map[uint32]bool{}       // by peer address
 	ueOf := func(s *CPSession) uint32 {
 		for _, p := range s.PDRs {
 			if p.SrcIface == IfCore && p.HasUEIP {
